@@ -29,16 +29,17 @@ THEOREMS = [
     "MCHap.C17.mem_compositions_iff",
     "MCHap.C17.hyper_sum_one",
     "MCHap.C17.gamete_sum_one",
+    "MCHap.C17.gameteSpec_nonneg",
     "MCHap.C17.unknown_sum_one",
     "MCHap.C17.mixture_sum_one",
     "MCHap.C17.sum_regroup",
     "MCHap.C17.trio_sum_one",
-    "MCHap.C17.multinomial_convolution",
     "MCHap.C17.increment_decreasing",
+    "MCHap.C17.enumerator_sound",
     "MCHap.C17.gameteSpec_pos_iff",
     "MCHap.C17.positive_iff_valid",
     "MCHap.C17.duo_positive_iff_valid",
-    "MCHap.C17.trioCode_eq_spec",
+    "MCHap.C17.enumerator_complete_small",
 ]
 RULE = ("cases: every unordered progeny genotype of (n_alleles 1..4) x (ploidy_p, ploidy_q, tau_p, tau_q) in balanced / mixed-ploidy / "
         "unbalanced / clonal (tau = 0) / unknown-parent configurations x lambda {0, .1, .5} (tau = 2) x errors {0, .01, .5, 1} x "
@@ -143,17 +144,20 @@ def run(tier, replay=None):
         "float64 log-space evaluation (log, exp, lgamma, log1p) is compared at rel 1e-9, sums at 1e-9 absolute; not proved",
         "frequency vectors are float64 and sum to one only up to rounding; the theorems are for exact sums",
         "an unknown parent is passed as ploidy 0 with error 1.0, as every caller in mchap does (trio_log_pmf itself does not force it)",
-        "completeness of the literal gamete enumerator is proved by kernel evaluation for all constraint vectors of length <= 4 with "
-        "entries <= 3 and tested beyond; trioCode_eq_spec takes it as a hypothesis",
+        "completeness of the literal gamete enumerator (every vector under the constraint is visited) is checked by kernel evaluation for "
+        "all constraint vectors of length <= 4 with entries <= 3 and tested beyond (oracle C17/enum/complete); soundness and strict "
+        "lexicographic decrease are theorems for every constraint",
+        "the identity trioPmfCode (four branches + literal enumerator) = trioPmf (sum over all gamete pairs, the object of trio_sum_one and "
+        "positive_iff_valid) is NOT a theorem: the driver evaluates both in exact rationals on every case and any difference is a disagreement",
         "the equality of the evaluation on allele-count vectors and on first-occurrence slot vectors is tested, not proved",
     ])
     chk.prove()
     drv = C.Driver(EXE)
     r = C.rng(PROP)
 
-    n_trio = {"warm": 4, "quick": 260, "thorough": 2600}[tier]
-    n_gam = {"warm": 3, "quick": 150, "thorough": 1500}[tier]
-    n_enum = {"warm": 5, "quick": 300, "thorough": 4000}[tier]
+    n_trio = {"warm": 4, "quick": 700, "thorough": 5000}[tier]
+    n_gam = {"warm": 3, "quick": 400, "thorough": 3000}[tier]
+    n_enum = {"warm": 5, "quick": 1000, "thorough": 8000}[tier]
 
     # ------------------------------------------------------------------ enumerator
     lines, meta = [], []
